@@ -207,7 +207,7 @@ def build():
             'source_commits': [],
             'add_only': True,
         },
-        'engines': [{'name': n, 'path': 'engines/%s.py' % n, 'serves_properties': sorted(p),
+        'engines': [{'name': n, 'path': {'c11': 'engines/multi.py'}.get(n, 'engines/%s.py' % n), 'serves_properties': sorted(p),
                      'kind_free_text': 'deterministic simulation with fault injection (seeded scheduler + reference model)'}
                     for n, p in sorted(engines.items())],
         'checks': checks,
